@@ -2,6 +2,7 @@ package main
 
 import (
 	"bufio"
+	"bytes"
 	"compress/gzip"
 	"fmt"
 	"io"
@@ -67,8 +68,31 @@ func addOneToBar(bar *progressbar.ProgressBar) {
 	}
 }
 
+// failureNotingReader remembers the first error other than io.EOF that the input returned.
+type failureNotingReader struct {
+	r   io.Reader
+	err error
+}
+
+func (f *failureNotingReader) Read(p []byte) (int, error) {
+	n, err := f.r.Read(p)
+	if err != nil && err != io.EOF && f.err == nil {
+		f.err = err
+	}
+	return n, err
+}
+
 func processMongoLogStream(r io.Reader, outWriter io.Writer, bar *progressbar.ProgressBar) error {
-	scanner := bufio.NewScanner(r)
+	src := &failureNotingReader{r: r}
+	scanner := bufio.NewScanner(src)
+	scanner.Split(func(data []byte, atEOF bool) (int, []byte, error) {
+		if atEOF && src.err != nil && bytes.IndexByte(data, '\n') < 0 {
+			// the input broke off inside this line (read error, cut gzip stream): what is left is a
+			// fragment, not a line, and must not be redacted and emitted as if it were one
+			return len(data), nil, nil
+		}
+		return bufio.ScanLines(data, atEOF)
+	})
 	for scanner.Scan() {
 		line := scanner.Text()
 		// Ensure bar is not nil before accessing its state to prevent panics.
